@@ -33,7 +33,29 @@ func init() {
 	share("C04", &RuleDoc{Name: "R-CLASSIFY-VIDEO-ONLY", Text: "The H.264/H.265 GOP-cache classifiers are applied only to packets of the video channel (Channel == ChannelVideo established): an audio payload is never read as a NAL header, so a drop can only begin or end at a video key frame.", Run: ruleClassifyVideoOnly})
 	share("C05", &RuleDoc{Name: "R-REGIST-SAME-IS-NOOP", Text: "Regist retires the previous holder only where it is established to be a different stream: registering the stream that already holds the path does not close it.", Run: ruleRegistSameIsNoop})
 	share("C05", &RuleDoc{Name: "R-HLS-ACCESS-STAMPED-FIRST", Text: "Playlist.M3u8 records the access time on every path (before the not-ready return): a client polling a playlist that is not ready yet counts as recent HLS access for the idle guard.", Run: ruleHlsAccessStampedFirst})
+	share("C10", &RuleDoc{Name: "R-SEGMENT-FLUSHED-BEFORE-LISTED", Text: "segmentClose closes (flushes) the segment file with a plain, not deferred, call before the segment is handed to the playlist: a segment a playlist lists is complete on disk.", Run: ruleSegmentFlushedBeforeListed})
+	share("C10", &RuleDoc{Name: "R-CLEAR-GUARD-AGREES", Text: "clearSegments compares the number of segments with the same `remain` it subtracts in its loop bound: Close (remain = 0) deletes every segment, the sliding window keeps exactly `remain`.", Run: ruleClearGuardAgrees})
+	share("C09", &RuleDoc{Name: "R-AUD-NAL-SET", Text: "prepareAvcHeader prepends the access-unit delimiter for slice, IDR slice and SEI NAL units (types 1, 5, 6).", Run: ruleAudNalSet})
+	share("C09", &RuleDoc{Name: "R-TS-PARAMS-LIVE", Text: "The TS packetiser passes the stream's current SPS/PPS (read from the shared metadata at each frame) to prepareAvcHeader, not a copy taken when the packetiser was built (the metadata may be completed later from in-band parameter sets).", Run: ruleTsParamsLive})
+	share("C08", &RuleDoc{Name: "R-HEVC-PLT-TIER", Text: "applyPLT takes the tier together with the level when the parameter set's tier is higher (ISO 14496-15 8.3.3.1.3): the stored general_tier_flag is assigned on that branch.", Run: ruleHevcPltTier})
+	share("C07", &RuleDoc{Name: "R-DEMUXER-NEVER-TYPED-NIL", Text: "When rtp.NewDemuxer fails, the stream's rtpDemuxer field is re-assigned a usable placeholder before prepareOtherStream returns (the failed call stores a typed nil into the interface field).", Run: ruleDemuxerNeverTypedNil})
+	share("C07", &RuleDoc{Name: "R-UDP-ERROR-NOT-FATAL", Text: "udpConsumer.Consume does not close the consumer on a datagram send error: one oversized packet (legal on TCP, too long for a datagram) must not end delivery of the following good packets.", Run: ruleUdpErrorNotFatal})
+	share("C06", &RuleDoc{Name: "R-WRAP-BOTH-WAYS", Text: "The 32-bit timestamp extension counts a wrap forwards and a step back across the wrap (a reordered or B-frame timestamp from before it): the wrap counter is both incremented and decremented.", Run: ruleWrapBothWays})
 	addMutants(
+		&Mutant{Prop: "C10", Name: "c10-segment-close-deferred", File: "av/format/hls/segmentgenerator.go",
+			Old: "\tcurr.file.close()\n\tif curr.duration*1000", New: "\tdefer curr.file.close()\n\tif curr.duration*1000", Expect: "R-SEGMENT-FLUSHED-BEFORE-LISTED"},
+		&Mutant{Prop: "C10", Name: "c10-clear-guard-constant", File: "av/format/hls/playlist.go",
+			Old: "\tif len(pl.segments) > remain {", New: "\tif len(pl.segments) > hlsRemainSegments {", Expect: "R-CLEAR-GUARD-AGREES"},
+		&Mutant{Prop: "C09", Name: "c09-no-aud-for-sei", File: "av/format/mpegts/frame.go",
+			Old: "\tif h264.NalSlice == nalUnitType || h264.NalIdrSlice == nalUnitType || h264.NalSei == nalUnitType {", New: "\tif h264.NalSlice == nalUnitType || h264.NalIdrSlice == nalUnitType {", Expect: "R-AUD-NAL-SET"},
+		&Mutant{Prop: "C08", Name: "c08-plt-tier-dropped", File: "av/format/flv/videodata.go",
+			Old: "\t\trecord.GeneralLevelIDC = ptl.General_level_idc\n\n\t\trecord.GeneralTierFlag = ptl.General_tier_flag", New: "\t\trecord.GeneralLevelIDC = ptl.General_level_idc", Expect: "R-HEVC-PLT-TIER"},
+		&Mutant{Prop: "C07", Name: "c07-demuxer-typed-nil", File: "media/stream.go",
+			Old: "\t\ts.rtpDemuxer = emptyRtpDemuxer{}\n\t\treturn", New: "\t\treturn", Expect: "R-DEMUXER-NEVER-TYPED-NIL"},
+		&Mutant{Prop: "C07", Name: "c07-udp-error-closes", File: "service/rtsp/session_roles.go",
+			Old: "\t\t\tc.logger.Warn(err.Error())\n\t\t\treturn", New: "\t\t\tc.logger.Warn(err.Error())\n\t\t\tc.Close()\n\t\t\treturn", Expect: "R-UDP-ERROR-NOT-FATAL"},
+		&Mutant{Prop: "C06", Name: "c06-wrap-forward-only", File: "av/format/rtp/syncclock.go",
+			Old: "\t\t} else if rtptime > sc.lastRTP && rtptime-sc.lastRTP > 1<<31 {\n\t\t\tsc.wraps-- // 回绕点之前的乱序包\n\t\t}", New: "\t\t}", Expect: "R-WRAP-BOTH-WAYS"},
 		&Mutant{Prop: "C03", Name: "c03-consume-sets-closed", File: "service/rtsp/session_roles.go",
 			Old: "		c.logger.Errorf(\"send pack error = %v , close socket\", err)\n\t\tc.Close()", New: "		c.logger.Errorf(\"send pack error = %v , close socket\", err)\n\t\tc.closed = true\n\t\tc.Session.Close()", Expect: "R-CLOSED-FLAG-OWNED"},
 		&Mutant{Prop: "C03", Name: "c03-replay-with-range-attaches", File: "service/rtsp/session.go",
@@ -408,4 +430,322 @@ func ruleHlsAccessStampedFirst(c *Ctx) {
 	if ok {
 		c.OK("hls-access-stamped", p.Pos(fn.Pos()), "access time recorded on every path")
 	}
+}
+
+// ------------------------------------------------------------ round 3, part 3
+
+func ruleSegmentFlushedBeforeListed(c *Ctx) {
+	p := c.P
+	fn := p.Func("av/format/hls", "(*SegmentGenerator).segmentClose")
+	if fn == nil {
+		c.Lost("hls.SegmentGenerator.segmentClose", "not found")
+		return
+	}
+	c.touched(fname(fn))
+	var add, closeCall ssa.Instruction
+	deferred := false
+	instrs(fn, func(ins ssa.Instruction) {
+		cc := callCommon(ins)
+		if cc == nil {
+			return
+		}
+		name := ""
+		if cc.StaticCallee() != nil {
+			name = cc.StaticCallee().Name()
+		} else if cc.IsInvoke() {
+			name = cc.Method.Name()
+		}
+		switch name {
+		case "addSegment":
+			add = ins
+		case "close":
+			if _, isDefer := ins.(*ssa.Defer); isDefer {
+				deferred = true
+			} else if closeCall == nil {
+				closeCall = ins
+			}
+		}
+	})
+	if add == nil {
+		c.Lost("segmentClose:addSegment", "segmentClose no longer hands the segment to the playlist")
+		return
+	}
+	good := closeCall != nil && !deferred && dominatesInstr(closeCall, add)
+	c.Decide(good, "segment-flushed-before-listed", p.InstrPos(add), "file closed before addSegment", "the segment is handed to the playlist before its file is closed (the close is deferred or later): a fetch in that window gets a truncated transport stream (the 64 KiB buffered writer is not flushed yet), not the stream produced for that sequence number")
+}
+
+func ruleClearGuardAgrees(c *Ctx) {
+	p := c.P
+	fn := p.Func("av/format/hls", "(*Playlist).clearSegments")
+	if fn == nil {
+		c.Lost("hls.Playlist.clearSegments", "not found")
+		return
+	}
+	c.touched(fname(fn))
+	remain := fn.Params[1]
+	n := 0
+	instrs(fn, func(ins ssa.Instruction) {
+		bo, ok := ins.(*ssa.BinOp)
+		if !ok || (bo.Op != token.GTR && bo.Op != token.GEQ && bo.Op != token.LSS && bo.Op != token.LEQ) {
+			return
+		}
+		lenSide, other := bo.X, bo.Y
+		if call, isCall := stripConv(lenSide).(*ssa.Call); !isCall || calleeName(&call.Call) != "builtin.len" {
+			lenSide, other = bo.Y, bo.X
+		}
+		call, isCall := stripConv(lenSide).(*ssa.Call)
+		if !isCall || calleeName(&call.Call) != "builtin.len" {
+			return
+		}
+		if f, _, ok := fieldLoad(call.Call.Args[0]); !ok || f.Name() != "segments" {
+			return
+		}
+		// only the entry guard (not the loop bound i < len-remain)
+		if _, isSub := stripConv(other).(*ssa.BinOp); isSub {
+			return
+		}
+		if _, isPhi := stripConv(lenSide).(*ssa.Phi); isPhi {
+			return
+		}
+		if _, isPhi := stripConv(other).(*ssa.Phi); isPhi {
+			return
+		}
+		n++
+		c.Decide(origin(other) == ssa.Value(remain), "clear-guard", p.InstrPos(bo), "guard compares with the same `remain` the loop subtracts", "clearSegments guards with "+describeValue(p, other)+" but deletes len(segments)-remain entries: Close (remain 0) deletes nothing while fewer than that many segments exist, so the last segments of every closed stream (and their .ts files) leak and the closed playlist keeps serving them")
+	})
+	if n == 0 {
+		c.Undecided("clear-guard", p.Pos(fn.Pos()), "no entry guard on the number of segments")
+	}
+}
+
+func ruleAudNalSet(c *Ctx) {
+	p := c.P
+	fn := p.Func("av/format/mpegts", "(*Frame).prepareAvcHeader")
+	if fn == nil {
+		c.Lost("mpegts.Frame.prepareAvcHeader", "not found")
+		return
+	}
+	c.touched(fname(fn))
+	// the block appending the AUD literal: reached from equality tests of the NAL type
+	have := map[int64]bool{}
+	for _, b := range fn.Blocks {
+		ifi, ok := b.Instrs[len(b.Instrs)-1].(*ssa.If)
+		if !ok {
+			continue
+		}
+		bo, ok := ifi.Cond.(*ssa.BinOp)
+		if !ok || bo.Op != token.EQL {
+			continue
+		}
+		k, ok := constInt(bo.X)
+		if !ok {
+			k, ok = constInt(bo.Y)
+		}
+		if !ok {
+			continue
+		}
+		// the true edge leads to a block that appends (a call to append with the AUD global)
+		t := b.Succs[0]
+		appends := false
+		for _, ins := range t.Instrs {
+			if call, ok := ins.(*ssa.Call); ok && calleeName(&call.Call) == "builtin.append" {
+				appends = true
+			}
+		}
+		if appends {
+			have[k] = true
+		}
+	}
+	var missing []string
+	for _, k := range []int64{1, 5, 6} {
+		if !have[k] {
+			missing = append(missing, fmt.Sprint(k))
+		}
+	}
+	c.Decide(len(missing) == 0, "aud-nal-set", p.Pos(fn.Pos()), "AUD for NAL types 1, 5, 6", "no access-unit delimiter is prepended for NAL type(s) "+strings.Join(missing, ", ")+": the PES for such a unit starts 00 00 00 01 <nal> instead of 00 00 00 01 09 f0 00 00 01 <nal>")
+}
+
+func ruleTsParamsLive(c *Ctx) {
+	p := c.P
+	fn := p.Func("av/format/mpegts", "(*h264Packetizer).Packetize")
+	if fn == nil {
+		c.Lost("mpegts.h264Packetizer.Packetize", "not found")
+		return
+	}
+	c.touched(fname(fn))
+	n := 0
+	instrs(fn, func(ins ssa.Instruction) {
+		cc := callCommon(ins)
+		if cc == nil || cc.StaticCallee() == nil || cc.StaticCallee().Name() != "prepareAvcHeader" {
+			return
+		}
+		n++
+		good := true
+		for i, want := range []string{"Sps", "Pps"} {
+			if 1+i >= len(cc.Args) {
+				good = false
+				continue
+			}
+			f, base, ok := fieldLoad(stripConv(cc.Args[1+i]))
+			if !ok || f.Name() != want || !typeIs(base.Type(), modRel("av/codec"), "VideoMeta") {
+				good = false
+			}
+		}
+		c.Decide(good, "ts-params-live", p.InstrPos(ins), "SPS/PPS read from the shared metadata at each frame", "prepareAvcHeader is given parameter sets that are not read from the shared VideoMeta at this frame (copies taken at construction): when the SDP carries no sprop-parameter-sets the metadata is completed later from in-band NAL units, and every key-frame PES goes out without SPS/PPS")
+	})
+	if n == 0 {
+		c.Lost("ts-params-live", "Packetize no longer calls prepareAvcHeader")
+	}
+}
+
+func ruleHevcPltTier(c *Ctx) {
+	p := c.P
+	fn := p.Func("av/format/flv", "(*HEVCDecoderConfigurationRecord).applyPLT")
+	if fn == nil {
+		c.Lost("flv.HEVCDecoderConfigurationRecord.applyPLT", "not found")
+		return
+	}
+	c.touched(fname(fn))
+	good := false
+	for _, st := range storesToField(fn, modRel("av/format/flv"), "HEVCDecoderConfigurationRecord", "GeneralTierFlag") {
+		if f, _, ok := fieldLoad(stripConv(st.Val)); ok && f.Name() == "General_tier_flag" {
+			// under the `ptl tier > record tier` test
+			domConds(st, func(cond ssa.Value, taken bool) {
+				if bo, ok := cond.(*ssa.BinOp); ok {
+					fx, _, okx := fieldLoad(stripConv(bo.X))
+					fy, _, oky := fieldLoad(stripConv(bo.Y))
+					if okx && oky && strings.Contains(strings.ToLower(fx.Name()+fy.Name()), "tier") {
+						good = true
+					}
+				}
+			})
+		}
+	}
+	c.Decide(good, "hevc-plt-tier", p.Pos(fn.Pos()), "tier taken with the level when higher", "applyPLT never stores the parameter set's general_tier_flag: the HEVC sequence header always advertises Main tier, so for a High-tier stream hvcC byte 1 contradicts the SPS it was built from")
+}
+
+func ruleDemuxerNeverTypedNil(c *Ctx) {
+	p := c.P
+	fn := p.Func("media", "(*Stream).prepareOtherStream")
+	if fn == nil {
+		c.Lost("media.Stream.prepareOtherStream", "not found")
+		return
+	}
+	c.touched(fname(fn))
+	// state: 0 nothing, 1 the result of NewDemuxer was stored and its error is known non-nil, 2 re-assigned
+	type st struct {
+		Stored bool // field holds the call's (possibly typed-nil) result
+		Err    int8 // 0 unknown 1 err != nil 2 err == nil
+	}
+	isDemuxField := func(addr ssa.Value) bool {
+		f, _, ok := fieldAddr(addr)
+		return ok && f.Name() == "rtpDemuxer"
+	}
+	bad := false
+	res := RunPath(&PathRule[st]{Fn: fn, Init: []st{{}},
+		Transfer: func(s st, ins ssa.Instruction) []st {
+			if sto, ok := ins.(*ssa.Store); ok && isDemuxField(sto.Addr) {
+				fromCall := false
+				walkDeps(sto.Val, func(x ssa.Value) bool {
+					if call, ok := x.(*ssa.Call); ok && call.Call.StaticCallee() != nil && call.Call.StaticCallee().Name() == "NewDemuxer" {
+						fromCall = true
+					}
+					return true
+				})
+				s.Stored = fromCall
+				return []st{s}
+			}
+			return nil
+		},
+		Branch: func(s st, cond ssa.Value, taken bool) (st, bool) {
+			if bo, ok := cond.(*ssa.BinOp); ok && (isNilConst(bo.X) || isNilConst(bo.Y)) && (bo.Op == token.NEQ || bo.Op == token.EQL) {
+				isErr := false
+				for _, side := range []ssa.Value{bo.X, bo.Y} {
+					walkDeps(side, func(x ssa.Value) bool {
+						if ex, ok := x.(*ssa.Extract); ok && ex.Index == 1 {
+							if call, ok := ex.Tuple.(*ssa.Call); ok && call.Call.StaticCallee() != nil && call.Call.StaticCallee().Name() == "NewDemuxer" {
+								isErr = true
+							}
+						}
+						return true
+					})
+				}
+				if isErr {
+					nonNil := (bo.Op == token.NEQ) == taken
+					if nonNil {
+						s.Err = 1
+					} else {
+						s.Err = 2
+					}
+				}
+			}
+			return s, true
+		}})
+	c.paths += res.N
+	for ret, sts := range res.Exits() {
+		for _, s := range sts {
+			if s.Stored && s.Err == 1 {
+				bad = true
+				c.Bad("demuxer-typed-nil", p.InstrPos(ret), "prepareOtherStream returns on the failure path of rtp.NewDemuxer with the failed call's result still in s.rtpDemuxer: a typed nil *rtp.Demuxer in an interface field is not nil, WriteRtpPacket and Stream.Close call methods on it and panic - Close runs inside the deferred cleanup of the session/pull goroutine after its recover, so the whole server process dies (SDP with an unsupported video codec, then RECORD and a disconnect)")
+			}
+		}
+	}
+	if !bad {
+		c.OK("demuxer-typed-nil", p.Pos(fn.Pos()), "the failure path re-assigns a placeholder")
+	}
+}
+
+func ruleUdpErrorNotFatal(c *Ctx) {
+	p := c.P
+	fn := p.Func("service/rtsp", "(*udpConsumer).Consume")
+	if fn == nil {
+		c.Lost("rtsp.udpConsumer.Consume", "not found")
+		return
+	}
+	c.touched(fname(fn))
+	var bad ssa.Instruction
+	instrs(fn, func(ins ssa.Instruction) {
+		cc := callCommon(ins)
+		if cc == nil {
+			return
+		}
+		name := ""
+		if cc.StaticCallee() != nil {
+			name = cc.StaticCallee().Name()
+		} else if cc.IsInvoke() {
+			name = cc.Method.Name()
+		}
+		if name == "Close" || name == "StopConsume" {
+			bad = ins
+		}
+	})
+	if bad != nil {
+		c.Bad("udp-error-not-fatal", p.InstrPos(bad), "udpConsumer.Consume closes the consumer: a single datagram send error (an RTP packet of 65508..65535 bytes is legal on interleaved TCP but 'message too long' for UDP) ends delivery of every following good packet to that player and tears its session down")
+	} else {
+		c.OK("udp-error-not-fatal", p.Pos(fn.Pos()), "send errors are logged, the consumer stays attached")
+	}
+}
+
+func ruleWrapBothWays(c *Ctx) {
+	p := c.P
+	fn := p.Func("av/format/rtp", "(*SyncClock).extend")
+	if fn == nil {
+		c.Lost("rtp.SyncClock.extend", "timestamp extension not found")
+		return
+	}
+	c.touched(fname(fn))
+	inc, dec := false, false
+	for _, st := range storesToField(fn, modRel("av/format/rtp"), "SyncClock", "wraps") {
+		if bo, ok := stripConv(st.Val).(*ssa.BinOp); ok {
+			if k, ok := constInt(bo.Y); ok && k == 1 {
+				if bo.Op == token.ADD {
+					inc = true
+				}
+				if bo.Op == token.SUB {
+					dec = true
+				}
+			}
+		}
+	}
+	c.Decide(inc && dec, "wrap-both-ways", p.Pos(fn.Pos()), "wrap counter incremented and decremented", fmt.Sprintf("the wrap counter is incremented (%v) / decremented (%v): a timestamp from before the 32-bit wrap that arrives after a wrapped one (B-frames in decode order, UDP reordering) is taken for another forward wrap and every later frame stays shifted by 2^32 ticks", inc, dec))
 }
